@@ -277,13 +277,35 @@ func init() {
 				if p == nil {
 					continue // the server loop takes its connection differently
 				}
-				isClose := func(in ssa.Instruction) bool {
+				var isClose func(in ssa.Instruction) bool
+				isClose = func(in ssa.Instruction) bool {
 					c := callCommon(in)
 					if c == nil {
 						return false
 					}
 					sc := c.StaticCallee()
 					return sc != nil && marksClosed(sc, 0)
+				}
+				isCloseCall := isClose
+				isClose = func(in ssa.Instruction) bool {
+					if isCloseCall(in) {
+						return true
+					}
+					// the guarded close written in line: `if conn == c.conn { c.isClosed = true }`
+					iff, ok := in.(*ssa.If)
+					if !ok {
+						return false
+					}
+					cmp, ok := iff.Cond.(*ssa.BinOp)
+					if !ok || cmp.Op != token.EQL || !(cmp.X == ssa.Value(p) || cmp.Y == ssa.Value(p)) {
+						return false
+					}
+					for _, x := range in.Block().Succs[0].Instrs {
+						if storesClosedTrue(x) {
+							return true
+						}
+					}
+					return false
 				}
 				ex := reachFromEntryAvoiding(fn, func(in ssa.Instruction) bool { return isReturn(in) && in.Block() != fn.Recover }, isClose)
 				r.Check(ex == nil, fname(fn), "receiver exit marks the connection closed", fn.Pos(), "every return of the receive loop is preceded by the guarded close", "the receive loop can return (at %s) without marking the connection closed: the client keeps queueing requests for a dead connection and never redials", posOf(r, ex))
